@@ -68,13 +68,16 @@ def verify(sh, folder, rows, label, heuristic, order, origin):
              lambda: wit(missing=sorted(set(exp) - set(names))[:6], extra=sorted(set(names) - set(exp))[:6], duplicated=[n for n in set(names) if names.count(n) > 1][:6]))
     got = {}
     for r in got_rows:
-        got[r[0]] = float(r[1])
+        try:
+            got[r[0]] = float(r[1])
+        except (ValueError, IndexError):
+            got[r[0]] = float('nan')          # an empty / non-numeric score cell: reported below as a wrong score
     span = (max(exp.values()) - min(exp.values())) if exp else 1.0
-    bad = [(k, got.get(k), v) for k, v in exp.items() if k not in got or abs(got[k] - v) > 1e-9 * max(span, 1e-300) + 1e-9 * abs(v)]
+    bad = [(k, got.get(k), v) for k, v in exp.items() if k not in got or not (abs(got[k] - v) <= 1e-9 * max(span, 1e-300) + 1e-9 * abs(v))]
     sh.check('score=median' if 'MI' not in heuristic else 'mi-normalised', not bad, 'score!=median-of-label-scores' if 'MI' not in heuristic else 'score!=min-max-normalised-median', lambda: wit(wrong=bad[:6]))
     if 'MI' in heuristic:
-        sh.check('mi-normalised', abs(max(got.values()) - 1.0) < 1e-9 and abs(min(got.values())) < 1e-9, 'best!=1-or-worst!=0', lambda: wit(best=max(got.values()), worst=min(got.values())))
-    vals = [float(r[1]) for r in got_rows]
+        sh.check('mi-normalised', bool(got) and abs(max(got.values()) - 1.0) < 1e-9 and abs(min(got.values())) < 1e-9, 'best!=1-or-worst!=0', lambda: wit(best=max(got.values()), worst=min(got.values())))
+    vals = [got[r[0]] for r in got_rows]
     sh.check('descending', all(vals[i] >= vals[i + 1] for i in range(len(vals) - 1)), 'not-in-descending-order', lambda: wit(scores=vals[:30]))
     if order > 1:
         p = os.path.join(folder, 'feature_singles_aggregated.tsv')
@@ -86,8 +89,13 @@ def verify(sh, folder, rows, label, heuristic, order, origin):
         eagg = {k: statistics.median(v) for k, v in store.items()}
         if eagg:
             ahdr, arows = read_tsv(p)
-            gagg = {r[0]: float(r[1]) for r in arows}
-            bad = [(k, gagg.get(k), v) for k, v in eagg.items() if k not in gagg or abs(gagg[k] - v) > 1e-9]
+            gagg = {}
+            for r in arows:
+                try:
+                    gagg[r[0]] = float(r[1])
+                except (ValueError, IndexError):
+                    gagg[r[0]] = float('nan')
+            bad = [(k, gagg.get(k), v) for k, v in eagg.items() if k not in gagg or not (abs(gagg[k] - v) <= 1e-9)]
             sh.check('aggregated-table', not bad and len(arows) == len(eagg), 'aggregated-score!=median-over-interactions', lambda: wit(wrong=bad[:6], aggregated=arows[:12]))
     meds = set(round(v, 9) for v in exp.values())
     return len(exp) >= 3 and len(meds) > 1
